@@ -270,6 +270,9 @@ def simp(t):
             return simp(("ite", c, d[C(True)], d[C(False)]))
         if base[0] == "call" and base[1] == "dict" and len(base[2]) == 1 and not base[3]:
             return simp(("idx", base[2][0], i))            # dict(d)[k] == d[k]
+        if base[0] == "call" and base[1] == "range" and len(base[2]) == 1 and not base[3] and not (is_const(i) and (not isinstance(i[1], int) or i[1] < 0)) \
+                and i[0] in ("elem", "v", "c", "pos"):
+            return i                                       # range(n)[k] is k (for a k the program can use there without an IndexError)
         if base[0] == "call" and base[1] == "vars" and len(base[2]) == 1 and not base[3] and is_const(i) and isinstance(i[1], str) and i[1].isidentifier():
             return simp(("attr", base[2][0], i[1]))        # vars(ns)["x"] == ns.x for a plain namespace object
         if base[0] == "call" and base[1] in ("tuple", "list") and len(base[2]) == 1 and not base[3] and is_const(i) and isinstance(i[1], int) \
@@ -1286,6 +1289,18 @@ class SymX:
         return None
 
     @staticmethod
+    def _dict_items(t, d=0):
+        """Entries of a dict-valued term with the same literal keys on every path: [(key, value)] (values merged by path) or None."""
+        if t[0] == "dict":
+            return list(t[1]) if all(is_const(k) for k, _ in t[1]) else None
+        if t[0] == "ite" and d < 8:
+            a, b = SymX._dict_items(t[2], d + 1), SymX._dict_items(t[3], d + 1)
+            if a is None or b is None or [k for k, _ in a] != [k for k, _ in b]:
+                return None
+            return [(k, mk_ite(t[1], va, vb)) for (k, va), (_, vb) in zip(a, b)]
+        return None
+
+    @staticmethod
     def _dict_valued(t, d=0):
         if t[0] == "dict":
             return True
@@ -1393,7 +1408,23 @@ class SymX:
         if isinstance(e, ast.Set):
             return ("set", tuple(sorted((ev(x) for x in e.elts), key=key)))
         if isinstance(e, ast.Dict):
-            return ("dict", tuple((ev(k) if k is not None else C(None), ev(v)) for k, v in zip(e.keys, e.values)))
+            items = []
+            for k, v in zip(e.keys, e.values):
+                if k is not None:
+                    items.append((ev(k), ev(v)))
+                    continue
+                sv = ev(v)
+                flat = self._dict_items(sv)
+                if flat is not None and all(is_const(k_) and isinstance(k_[1], str) for k_, _ in flat) and all(is_const(k_) for k_, _ in items):
+                    # `**d` of a dictionary whose keys are known: its entries, later ones replacing earlier ones
+                    for k_, v_ in flat:
+                        if any(k0 == k_ for k0, _ in items):
+                            items = [(k0, (v_ if k0 == k_ else v0)) for k0, v0 in items]
+                        else:
+                            items.append((k_, v_))
+                else:
+                    items.append((C(None), sv))
+            return ("dict", tuple(items))
         if isinstance(e, ast.BinOp):
             return self.binop(e.op, ev(e.left), ev(e.right))
         if isinstance(e, ast.UnaryOp):
